@@ -51,6 +51,27 @@ Theorem C05_tables_disjoint :
 Proof. exact suppress_promote_disjoint. Qed.
 Print Assumptions C05_tables_disjoint.
 
+(** "promptly": over the scope protocol (theories/ScopeProto.v, tied to /repo by the label replay of harness/scopecorr.py),
+    for every environment.  From the failure of a child of an open scope on, virtual time stands still until the block
+    is left; the block is left at the time of the failure, and - unless the body itself raised or a foreign signal
+    arrived - with the children's failure. *)
+From Usim Require ScopeProto ScopeProtoProps ScopePrompt.
+Theorem C05_first_failure_ends_the_block_in_its_time_step :
+  forall k s i s1 ls s2, ScopeProto.reachable k s -> ScopeProto.interruptable s = true ->
+    ScopeProto.step s (ScopeProto.ChildFail i) = Some s1 -> ScopeProto.run s1 ls = Some s2 ->
+    (ScopeProtoProps.isexited (ScopeProto.ph s2) = false /\ ScopeProto.now s2 = ScopeProto.now s /\
+     ScopeProto.step s2 ScopeProto.Tick = None) \/
+    (exists c o, ScopeProto.ph s2 = ScopeProto.Exited c o /\ ScopeProto.exited_at s2 = Some (ScopeProto.now s)).
+Proof. exact ScopePrompt.child_failure_prompt_thm. Qed.
+Print Assumptions C05_first_failure_ends_the_block_in_its_time_step.
+
+Theorem C05_failed_child_is_reported :
+  forall k s i s1 ls s2 c o, ScopeProto.reachable k s ->
+    ScopeProto.step s (ScopeProto.ChildFail i) = Some s1 -> ScopeProto.run s1 ls = Some s2 ->
+    ScopeProto.ph s2 = ScopeProto.Exited c o -> o = ScopeProto.outcome_of c true.
+Proof. exact ScopePrompt.child_failure_reported_thm. Qed.
+Print Assumptions C05_failed_child_is_reported.
+
 (** (A) the tie to /repo's current source: every function this property's models were transcribed from has, in the
     tree this run is checking, the normalised source it had when the models were validated (hashes regenerated from
     /repo into gen/Generated.v on every run; pins in gen/SourcePins.v).  A change to one of them invalidates the
